@@ -142,6 +142,7 @@ class Program:
     def __init__(self, root: str = "/repo", extra_dirs: Tuple[str, ...] = ()):
         self.root = os.path.abspath(root)
         self.modules: Dict[str, ModuleInfo] = {}
+        self.inlined: Dict[str, List[str]] = {}
         self.parse_failures: List[str] = []
         src = os.path.join(self.root, self.SRC_SUBDIR)
         if not os.path.isdir(src):
@@ -174,6 +175,15 @@ class Program:
                 except (SyntaxError, UnicodeDecodeError, OSError) as e:
                     self.parse_failures.append(f"{path}: {e}")
                     continue
+                if into is self.modules and os.environ.get("SA_NO_INLINE") != "1":
+                    from . import inline
+
+                    try:
+                        n_inl, sites = inline.expand_module(tree, name)
+                    except RecursionError as e:  # pragma: no cover
+                        raise AnalysisError(f"helper expansion failed in {name}: {e}")
+                    if n_inl:
+                        self.inlined[name] = sites
                 _set_parents(tree)
                 into[name] = ModuleInfo(
                     name=name, path=path, rel=os.path.relpath(path, self.root), tree=tree, source=source
@@ -397,9 +407,19 @@ class Program:
                     pass
         return out
 
+    def is_expanded_helper(self, f: FuncInfo) -> bool:
+        """f is a helper outside the vocabulary the rules were written against, i.e. one whose calls sa/inline.py expands
+        in place wherever that is exact.  Its body is analysed inside its callers; rules that walk *all* functions may
+        skip the stand-alone copy when nothing calls it any more."""
+        from . import inline
+
+        kf = inline.known_functions()
+        return bool(kf) and f.module.name in self.modules and f.qual.split("#")[0] not in kf.get(f.module.name, set()) and ".<locals>." not in f.qual
+
     def stats(self) -> Dict[str, int]:
         return {
             "modules": len(self.modules),
             "classes": sum(len(m.classes) for m in self.modules.values()),
             "functions": sum(len(m.functions) for m in self.modules.values()),
+            "helper_calls_expanded": sum(len(v) for v in self.inlined.values()),
         }
